@@ -702,3 +702,52 @@ class AsyncClientRequestFraming(ClientRequestFraming):
                   f'{A}:SoapClientAsync.is_closed': Pure(lambda e, s, a, k: vbool(False), name='is_closed (connected)'),
                   'time.perf_counter': Pure(lambda e, s, a, k: V('real', fresh(RealS, 't')), name='perf_counter')})
         return d
+
+
+import ast as _ast   # noqa: E402
+import builtins as _builtins   # noqa: E402
+from pyvc.api import ScanCheck   # noqa: E402
+
+
+@register
+class CodecsAreStateless(ScanCheck):
+    id = 'C17.codecs_are_stateless'
+    prop = 'C17'
+    doc = ('every coding handler (subclass of AbstractDataCompressor in httpserver/compression.py) is a pair of pure '
+           'functions of the payload: compress_payload / decompress_payload are staticmethods whose bodies use only their '
+           'parameter, locals created in the call, builtins and the codec libraries (zlib, lz4) - no class attribute, '
+           'no module-level object, no global statement - and the class holds no state besides `algorithms`. So two '
+           'messages coded at the same time (handler threads, notification threads) cannot influence each other; the '
+           'round trip of ONE message through the library functions is the bounded check C17.coding_roundtrip')
+
+    LIBS = {'zlib', 'lz4', 'gzip'}
+
+    def scan(self, repo):
+        mod = repo.module(CH)
+        out, n = [], 0
+        for cname, cd in mod.classes.items():
+            if not any(_ast.unparse(b) == 'AbstractDataCompressor' for b in cd.bases):
+                continue
+            n += 1
+            state = [(_ast.unparse(t)) for s in cd.body if isinstance(s, (_ast.Assign, _ast.AnnAssign))
+                     for t in (s.targets if isinstance(s, _ast.Assign) else [s.target]) if _ast.unparse(t) != 'algorithms']
+            out.append((f'{cname}.no_class_level_state', not state, {'attributes': str(state)}))
+            for fname in ('compress_payload', 'decompress_payload'):
+                fns = [f for f in cd.body if isinstance(f, _ast.FunctionDef) and f.name == fname]
+                if not fns:
+                    out.append((f'{cname}.{fname}.defined', False, {}))
+                    continue
+                fn = fns[0]
+                static = any(_ast.unparse(d) == 'staticmethod' for d in fn.decorator_list)
+                params = {a.arg for a in fn.args.args + fn.args.kwonlyargs}
+                assigned = {t.id for s in _ast.walk(fn) if isinstance(s, (_ast.Assign, _ast.AnnAssign, _ast.AugAssign))
+                            for t in _ast.walk(s.targets[0] if isinstance(s, _ast.Assign) else s.target) if isinstance(t, _ast.Name)}
+                used = {x.id for x in _ast.walk(fn) if isinstance(x, _ast.Name) and isinstance(x.ctx, _ast.Load)}
+                foreign = sorted(u for u in used if u not in params and u not in assigned and u not in self.LIBS
+                                 and not hasattr(_builtins, u))
+                scoped = any(isinstance(x, (_ast.Global, _ast.Nonlocal)) for x in _ast.walk(fn))
+                out.append((f'{cname}.{fname}.pure_function_of_the_payload',
+                            static and not foreign and not scoped and params == {'payload'},
+                            {'staticmethod': static, 'foreign_names': str(foreign), 'params': str(sorted(params))}))
+        out.append(('handlers_found', n >= 2, {'n': n}))
+        return out
